@@ -2,6 +2,7 @@ import TypstyleModel.Props.C04
 import TypstyleModel.Props.C11
 import TypstyleModel.Model.Printer.Knot
 import TypstyleModel.Proofs.Tokens
+import TypstyleModel.Proofs.EndToEnd
 /-! C01 — formatting preserves the syntax tree (partial: printer side; the re-parse is an assumption). -/
 namespace Typstyle
 open Pretty
@@ -67,5 +68,20 @@ simply the kept characters of the source text. -/
 theorem C01_specToks_is_source_text (t : ANode) (h : t.noCommentNoVerbatim = true) (hb : t.blankSpaces = true) :
     specToks t = Pretty.keepOf t.intoText :=
   specToks_plain_node t h hb
+
+/-- T1.4 (end to end on the output *text*): for a source without comments and `@typstyle off`
+regions whose printed family is certified, the formatted text — rendered at **any** width and indent
+unit and passed through the post-pass — has exactly the kept characters of the source text, in order:
+formatting changed nothing but blanks and the characters `( ) { } , ; :`. (Rendering adds only line
+feeds and blanks, `renderAtoms_filter`; the post-pass removes only blanks, `stripL_filter`.) -/
+theorem C01_output_text_keeps_source_text (root : Node) (d : Twin.Doc)
+    (ht : tokensCertified root d = true) (hc : commentsCertified root d = true)
+    (hplain : (prepare root).noCommentNoVerbatim = true) (hb : (prepare root).blankSpaces = true) (u w : Nat) :
+    Pretty.keepOf (strip (pretty w (d.fam u))) = Pretty.keepOf (prepare root).intoText :=
+  output_text_keeps_source_text root d ht hc hplain hb u w
+
+/-- T1.5: the post-pass keeps every non-blank character of the whole text, in order. -/
+theorem C01_strip_keeps_text (s : List Char) :
+    (stripL s).filter (fun c => !isWs c) = s.filter (fun c => !isWs c) := stripL_filter s
 
 end Typstyle
